@@ -741,6 +741,16 @@ def remember(k, v):
 def bump(x, acc=[]):
     acc.append(x)
     return acc
+
+_DEFAULTS = {'duct': [1.0, 2.0]}
+
+class R:
+    def __init__(self, user=None):
+        self.par = _DEFAULTS
+        self.safe = dict(_DEFAULTS)
+        if user:
+            self.par['duct'] = user
+            self.safe['duct'] = user
 """
 
 
@@ -787,6 +797,23 @@ def _r4_scan(m):
                         and root.id not in local:
                     out.append((fi, c, 'mutates the module-level container '
                                 '%s' % root.id))
+        # a local that IS a module-level container (x = _G; x[k] = v)
+        lal = {}
+        for st in walk_no_nested(fi.node):
+            if isinstance(st, ast.Assign) and len(st.targets) == 1 and \
+                    isinstance(st.targets[0], ast.Name):
+                g_ = _global_alias(st.value, mutable_globals, local)
+                if g_:
+                    lal[st.targets[0].id] = g_
+        for t, st in U.stores(fi.node):
+            root = t
+            while isinstance(root, (ast.Subscript, ast.Attribute)):
+                root = root.value
+            if isinstance(root, ast.Name) and root.id in lal and \
+                    not isinstance(t, ast.Name):
+                out.append((fi, st, 'writes through the local `%s`, which is '
+                            'the module-level container %s itself'
+                            % (root.id, lal[root.id])))
         # mutable default arguments that are mutated
         a = fi.node.args
         pos = a.posonlyargs + a.args
@@ -813,7 +840,60 @@ def _r4_scan(m):
             if mutated:
                 out.append((fi, d, 'mutates its mutable default argument %s'
                             % pn))
+    # an attribute bound to a module-level container itself (no copy) and
+    # written through in any method of the class: every object of the class,
+    # in every model built in the process, shares and changes that one dict
+    for ci in m.classes.values():
+        alias = {}
+        for fi in ci.methods.values():
+            local = set(fi.params)
+            for t, st in U.stores(fi.node):
+                if isinstance(st, ast.Assign) and isinstance(
+                        t, ast.Attribute) and src(t.value) == 'self':
+                    g_ = _global_alias(st.value, mutable_globals, local)
+                    if g_:
+                        alias[t.attr] = (g_, st)
+        if not alias:
+            continue
+        for fi in ci.methods.values():
+            for t, st in U.stores(fi.node):
+                ap = access_path(t)
+                if ap is not None and len(ap) > 2 and ap[0] == 'self' and \
+                        ap[1] in alias:
+                    out.append((fi, st, 'stores into self.%s, which was bound '
+                                'to the module-level container %s itself'
+                                % (ap[1], alias[ap[1]][0])))
+            for c in walk_no_nested(fi.node):
+                if isinstance(c, ast.Call) and isinstance(
+                        c.func, ast.Attribute) and c.func.attr in MUTATORS:
+                    ap = access_path(c.func.value)
+                    if ap is not None and len(ap) >= 2 and ap[0] == 'self' \
+                            and ap[1] in alias:
+                        out.append((fi, c, 'mutates self.%s, which was bound '
+                                    'to the module-level container %s itself'
+                                    % (ap[1], alias[ap[1]][0])))
     return out
+
+
+def _global_alias(v, mutable_globals, local):
+    """Name of the module-level container the expression denotes (itself or
+    one of its sub-containers), None for copies / anything else."""
+    if isinstance(v, ast.IfExp):
+        return _global_alias(v.body, mutable_globals, local) or \
+            _global_alias(v.orelse, mutable_globals, local)
+    if isinstance(v, ast.BoolOp):
+        for x in v.values:
+            g_ = _global_alias(x, mutable_globals, local)
+            if g_:
+                return g_
+        return None
+    root = v
+    while isinstance(root, ast.Subscript):
+        root = root.value
+    if isinstance(root, ast.Name) and root.id in mutable_globals and \
+            root.id not in local:
+        return root.id
+    return None
 
 
 def r4(ctx):
@@ -834,7 +914,7 @@ def r4(ctx):
                    'functions (%d functions)' % len(m.funcs))
     pm = Module('dassh._positive', '<positive>', 'dassh/_positive.py',
                 R4_POSITIVE)
-    if len(_r4_scan(pm)) != 3:
-        raise AnalysisError('C16.R4 positive example: expected 3 hits, got '
+    if len(_r4_scan(pm)) != 4:
+        raise AnalysisError('C16.R4 positive example: expected 4 hits, got '
                             '%d' % len(_r4_scan(pm)))
-    ctx.ok('C16.R4', 'synthetic positive example', None, '3 hits detected')
+    ctx.ok('C16.R4', 'synthetic positive example', None, '4 hits detected')
